@@ -315,6 +315,15 @@ def check_bdt_value(g, X, is_int):
     return None
 
 
+def frac_cause(X, rv):
+    """recognisable causes of a fractional instant coming back wrong (canonical key parts)"""
+    if X < 0 and X.denominator != 1 and rv == -((-X.numerator) // X.denominator):
+        return "negative-fraction-dropped"      # truncated towards zero to whole seconds
+    if abs(rv - X) < Fraction(3, 10 ** 6) + 2 * Fraction(math.ulp(float(X))):
+        return "off>1us"                        # more than one, at most three microseconds away
+    return None
+
+
 def why_rejectable(kind, X):
     """for inputs that must be rejected: the class used in violation keys"""
     if kind in ("nan", "inf", "nonnum"):
@@ -331,7 +340,7 @@ def judge_core_op(ctx, name, r, it):
     wit = dict(op=name, input=show(it["v"]), input_wire=it["w"], task="epoch")
     if dom in ("invalid", "out"):
         if ok:
-            if kind in ("int", "big") and name in USES_SCALING and abs(X) > OVF and abs(X) < 2 ** 63:
+            if kind in ("int", "big") and name in USES_SCALING and abs(X) > OVF and I64[0] <= X <= I64[1]:
                 ctx.v("%s:overflow:wrapped-instant" % name, observed=show(r[1]), expected="error (|epoch|*10^6 overflows 64 bits)", **wit)
             else:
                 ctx.v("%s:%s:accepted" % (name, why_rejectable(kind, X)), observed=show(r[1]), expected="error", **wit)
@@ -357,10 +366,6 @@ def judge_core_op(ctx, name, r, it):
         f = check_bdt_value(val, X, is_int)
         if f:
             bad("model:" + f, show(bdt(X.numerator // X.denominator)) + (" (+ fraction)" if not is_int else ""))
-        elif not is_int and judged and X.denominator != 1:
-            sv = numval(val[5])
-            if sv is not None and abs((sv - X) % 1) * 10 ** 6 >= Fraction(1, 100) and abs((X - sv) % 1) * 10 ** 6 >= Fraction(1, 100):
-                ctx.o("%s: fractional second differs from the input's by up to 1 us (truncation)" % name)
     elif name in ("gmtime|mktime", "todate|fromdate"):
         rv = numval(val)
         if rv is None:
@@ -371,7 +376,11 @@ def judge_core_op(ctx, name, r, it):
         else:
             dlt = abs(rv - X)
             if dlt >= tol(X):
-                bad("roundtrip:off>=1us" if dlt < Fraction(1, 1000) else "roundtrip", "%r within 1 us" % float(X))
+                c = frac_cause(X, rv)
+                if c and judged:
+                    ctx.v("%s:%s" % (name, c), observed=show(val), expected="%r within 1 us" % float(X), **wit)
+                else:
+                    bad("roundtrip", "%r within 1 us" % float(X))
             elif judged and dlt * 10 ** 6 >= Fraction(99, 100):
                 ctx.o("%s: result one microsecond away from the input (truncation; within 'to the microsecond')" % name)
     elif name == "todate":
@@ -551,7 +560,11 @@ def judge_fmt(ctx, values):
             else:
                 dlt = abs(rv - X)
                 if dlt >= tol(X):
-                    bad("roundtrip:off>=1us" if dlt < Fraction(1, 1000) else "roundtrip", show(m[1]), "%r within 1 us" % float(X))
+                    c = frac_cause(X, rv)
+                    if c and judged:
+                        ctx.v("strftime|strptime|mktime:%s" % c, observed=show(m[1]), expected="%r within 1 us" % float(X), **w)
+                    else:
+                        bad("roundtrip", show(m[1]), "%r within 1 us" % float(X))
                 elif dlt * 10 ** 6 >= Fraction(99, 100):
                     ctx.o("strftime|strptime|mktime: result one microsecond away from the input (within 'to the microsecond')")
             if is_int and enc(viabdt) != enc([S("ok"), s]):
@@ -708,6 +721,8 @@ def judge_bdt_op(ctx, name, o, it, wit):
             # the text names the second containing the instant (a fraction within 1 us of the next second may carry)
             good = inst is not None and (inst == fl or (X.denominator != 1 and abs(inst - X) < 1 + tol(X)))
             what = "%s:bdt:wrong-instant:%s" % (name, cls)
+    if not good and name == "mktime" and rv is not None and frac_cause(X, rv):
+        what = "mktime:bdt:%s" % frac_cause(X, rv)
     if not good:
         if dom == "pos":
             ctx.v(what, observed=show(o[1]), expected=str(float(X)) if X.denominator != 1 else str(int(X)), **wit)
@@ -1052,7 +1067,7 @@ ISO_FIXED = [
 # tasks, replay, main
 # ------------------------------------------------------------------------------------------
 
-BATCH = 4000
+BATCH = {'epoch': 1000, 'fmt': 150, 'bdt': 2000, 'iso': 4000, 'wrongtype': 1000}
 
 
 def val_of_wire(w):
@@ -1075,7 +1090,7 @@ def gen_task(t):
         edges = edge_ints(thorough, random.Random(f"c20/{seed}/edges"))[idx::nparts]
         vals = []
         for i in edges:
-            vals += reps_of_int(i, rng, thorough or profile == "release")
+            vals += reps_of_int(i, rng, thorough)
         return "epoch", vals
     if kind == "special":
         return "epoch", FRAC_EDGES + REJECTABLE
@@ -1121,8 +1136,8 @@ def task(t):
     ctx = Ctx(profile)
     jk, payload = gen_task(t)
     try:
-        for i in range(0, len(payload), BATCH):
-            JUDGES[jk](ctx, payload[i:i + BATCH])
+        for i in range(0, len(payload), BATCH[jk]):
+            JUDGES[jk](ctx, payload[i:i + BATCH[jk]])
     except WorkerDied as e:
         ctx.inconc.append(classify_death(e))
     return {"kind": t[0], "viol": ctx.viol, "inconc": ctx.inconc, "obs": ctx.obs, "distinct": list(ctx.distinct),
